@@ -859,6 +859,14 @@ def c18(tier):
         for mode in ("check", "edit"):
             K, n = rl.sweep(binary, sc, mode, ["INT", "TERM"], batch, v)
         log("[sweep] %s: %d operations" % (sc.name, K))
+    # the stopped run is a later run of a history: the sources carry IDs from earlier runs, the lock has become unusable
+    # (unparsable after a merge), so the run has to scan - and is stopped while it does
+    for structured in ((False, True) if tier == "thorough" else (False,)):
+        sc = rl.Scenario("later-run-scans", {"f1.rs": [S(11), S(12)], "f2.rs": [S(21)], "f3.rs": [S(31), S(32)]}, lock=None,
+                         structured=structured)
+        K, n = rl.sweep(binary, sc, "edit", ["TERM", "INT"], batch, v, follow="check",
+                        pre_steps=[("edit", ""), ("lock", "corrupt"), ("devfn", "delete_highest_and_add", 3)])
+        log("[sweep] %s (later run, unusable lock): %d operations, %d runs" % (sc.name, K, n))
     batch.judge(v, {"C18"})
     v.cov["rule"] = ("SIGINT and SIGTERM raised inside the interposed call immediately before every counted operation k of "
                      "check and edit runs (signals before the handlers exist included); distinct = (scenario, mode, k, signal)")
